@@ -8,12 +8,10 @@ from props.parts import _tracksv1_gen as G
 NS = "EngineModel.Properties.C06V1."
 LEAN_MODULES = ["Properties.C06V1"]
 THEOREMS = [NS + t for t in [
-    "v1_C06_get_set", "v1_C06_reject", "v1_C06_frame", "v1_C06_frame_derived", "v1_C06_getter_snapshot",
-    "v1_C06_inv_write", "v1_C06_inv_set", "v1_C06_other_track", "v1_C06_history", "v1_C06_history_other_tracks"]]
-import os as _os
-if not _os.path.exists(_os.path.join(LEAN, "Properties", "C06V1.lean")):
-    # the 1.x theorem file is not in the tree yet: claim the tie only, say so
-    THEOREMS, LEAN_MODULES = [], []
+    "v1_C06_setter_spec", "v1_C06_get_set", "v1_C06_reject", "v1_C06_never_ub", "v1_C06_frame", "v1_C06_frame_derived",
+    "v1_C06_getter_snapshot", "v1_C06_slot_getters_safe", "v1_C06_inv_write", "v1_C06_inv_set", "v1_C06_inv_db",
+    "v1_C06_other_track", "v1_C06_db_get_set", "v1_C06_history", "v1_C06_history_getters",
+    "v1_C06_history_other_tracks", "v1_C06_spec_get_put", "v1_C06_spec_frame"]]
 ASSUMPTIONS = [
     "1.x: setters are modelled on the rows of one track (every statement they issue has WHERE id = ?); the only "
     "cross-track coupling is UNIQUE(path) from 1.11.1 on, which is part of the database-level step",
